@@ -25,6 +25,7 @@ def realX (emb : Float → ℝ) : XOps ℝ where
   atan2 y x := Real.arctan (y / x)
   abs x := |x|
   floor x := (⌊x⌋ : ℝ)
+  floorInt x := ⌊x⌋
   nextUp x := x
   isFinite _ := true
 
